@@ -53,18 +53,17 @@ def _labels(p):
     return res
 
 
-def _obs(c):
-    o = c["o"]
+def _obs(kind, q, o):
     st = o["st"]
     if st == "panic":
         return "OPanic"
     if st == "err":
         return "OErr"
-    if c["kind"] == "rr":
+    if kind == "rr":
         if st == "loc":
             return "(OLoc (0,0) %s %s 0)" % (_id(o["loc"]), cN(o["mask"]))
         return "(ONil 0)"
-    if c["q"]["path"] == "res":
+    if q["path"] == "res":
         if st == "loc":
             return "(OLoc %s %s %s 0)" % (_id(o["map"]), _id(o["loc"]), cN(o["mask"]))
         return "(ONil 0)"
@@ -73,81 +72,82 @@ def _obs(c):
     return "(ONil %s)" % cN(o["scope"])
 
 
-def _plen(c):
-    q = c["q"]
-    if c["kind"] == "rr":
+def _plen(kind, q):
+    if kind == "rr":
         return q["plen"]
     if q["path"] == "res":
         return 128
     return q["src"] + (96 if q["fam"] != 2 else 0)
 
 
+def _query(kind, q):
+    ip = copt(cN(_int16(q["a"]))) if (kind == "rr" or q["path"] == "ecs" or q.get("ipok")) else "None"
+    return "(mkQ %s %s %s %s %s %s)" % (clist([cbytes(l) for l in _labels(q["name"])]),
+                                        cbool(q["path"] == "ecs"), ip, cN(q["fam"]), cN(q["src"]), cN(_plen(kind, q)))
+
+
 def to_coq(c):
-    q = c["q"]
-    maps = clist(["(mkMapline %s %s %s %s)" % (cN(m["k"]), cbytes(m["name"]), cbool(m["wild"]), _id(m["id"]))
-                  for m in c["maps"]])
+    kind = c["kind"]
     decls = clist(["(mkMapdecl %s %s %s %s)" % (cN(m["k"]), clist([cbytes(l) for l in _labels(m["name"])]),
                                                  cbool(m["wild"]), _id(m["id"])) for m in c["maps"]])
     nets = clist(["(mkNetline %s (mkSubnet %s %s %s))" % (_id(s.get("map")), cN(_int16(s["a"])), cN(s["l"]), _id(s["loc"]))
                   for s in c["nets"]])
-    ip = copt(cN(_int16(q["a"]))) if (c["kind"] == "rr" or q["path"] == "ecs" or q.get("ipok")) else "None"
-    qq = "(mkQ %s %s %s %s %s %s %s)" % (cbytes(q["name"]), clist([cbytes(l) for l in _labels(q["name"])]),
-                                          cbool(q["path"] == "ecs"), ip, cN(q["fam"]), cN(q["src"]), cN(_plen(c)))
-    return "mk %s %s %s %s %s %s" % (BK[c["bk"]], maps, decls, nets, qq, _obs(c))
+    qs = clist([cpair(_query(kind, x["q"]), _obs(kind, x["q"], x["o"])) for x in c["qs"]])
+    return "mk %s %s %s %s" % (BK[c["bk"]], decls, nets, qs)
 
 
 def _f20_shape(s):
     return _int16(s["a"]) == 0 and 1 <= s["l"] <= 79
 
 
-def _relevant_nets(c):
-    """subnets of the map the spec selects (all subnets for kind rr)"""
-    if c["kind"] == "rr":
-        return c["nets"]
-    q = c["q"]
+def _map_for(c, q):
     kind = 56 if q["path"] == "ecs" else 77
     ls = _labels(q["name"])
-    mid = None
     for m in c["maps"]:
         if m["k"] == kind and not m["wild"] and _labels(m["name"]) == ls:
-            mid = m["id"]
-            break
-    if mid is None:
-        for i in range(1, len(ls) + 1):
-            for m in c["maps"]:
-                if m["k"] == kind and m["wild"] and _labels(m["name"]) == ls[i:]:
-                    mid = m["id"]
-                    break
-            if mid is not None:
-                break
-    if mid is None:
-        mid = [0, 0]
-    return [s for s in c["nets"] if list(s.get("map") or [0, 0]) == list(mid)]
+            return list(m["id"])
+    for i in range(1, len(ls) + 1):
+        for m in c["maps"]:
+            if m["k"] == kind and m["wild"] and _labels(m["name"]) == ls[i:]:
+                return list(m["id"])
+    return [0, 0]
+
+
+def _relevant_nets(c, q):
+    """subnets of the map the spec selects for query q (all subnets for kind rr)"""
+    if c["kind"] == "rr":
+        return c["nets"]
+    mid = _map_for(c, q)
+    return [s for s in c["nets"] if list(s.get("map") or [0, 0]) == mid]
 
 
 def known_finding(c, findings):
-    """F20: only RocksDB / Rearranger cases whose (selected map's) subnet set contains an IPv6 subnet ::/N, 1 <= N <= 79.
-    The CDB backends must still satisfy the spec on such sets."""
-    if c["bk"] not in ("rr", "v1", "v2"):
+    """F20: only RocksDB / Rearranger cases in which EVERY query selects a map whose subnet set contains an IPv6
+    subnet ::/N, 1 <= N <= 79, and no query ended in a panic or an error.  The CDB backends must still satisfy
+    the spec on such sets."""
+    if c["bk"] not in ("rr", "v1", "v2") or not c["qs"]:
         return None
-    if c["o"]["st"] in ("panic", "err"):
-        return None
-    if not any(_f20_shape(s) for s in _relevant_nets(c)):
-        return None
+    for x in c["qs"]:
+        if x["o"]["st"] == "panic":
+            return None
+        if x["o"]["st"] == "err" and not ("same key" in x["o"].get("msg", "") or "Invalid location length" in x["o"].get("msg", "")):
+            return None
+        if not any(_f20_shape(s) for s in _relevant_nets(c, x["q"])):
+            return None
     for f in findings:
         if f.get("id") == "F20":
             return f
     return None
 
 
-def nontrivial(c):
-    o = c["o"]
+def _q_key(c, x):
+    o, q = x["o"], x["q"]
     if o["st"] == "loc" and list(o["loc"]) != [0, 0]:
         key = "loc"
     else:
-        a = _int16(c["q"]["a"])
+        a = _int16(q["a"])
         edge = False
-        for s in _relevant_nets(c):
+        for s in _relevant_nets(c, q):
             sa, l = _int16(s["a"]), s["l"]
             last = sa + (1 << (128 - l)) - 1
             if a in (sa, last, last + 1, sa - 1):
@@ -156,19 +156,57 @@ def nontrivial(c):
         if not edge:
             return None
         key = "edge"
-    q = c["q"]
-    return [key, c["bk"], [(s["a"], s["l"], s["loc"], s.get("map")) for s in c["nets"]],
-            [(m["k"], m["name"], m["wild"], m["id"]) for m in c["maps"]],
-            q["name"], q["path"], q["a"], q["fam"], q["src"], q.get("plen")]
+    nets = sorted((tuple(s["a"]), s["l"], tuple(s["loc"])) for s in _relevant_nets(c, q))
+    return (key, c["bk"], tuple(nets), tuple(q["name"]), q["path"], tuple(q["a"]), q["fam"], q["src"], q.get("plen"))
+
+
+def nontrivial(c):
+    ks = sorted(set(str(k) for k in (_q_key(c, x) for x in c["qs"]) if k is not None))
+    return ks or None
 
 
 def case_class(c):
-    return c["bk"] + ":" + c.get("class", "?")
+    return c["bk"] + ":group"
 
 
 def shrink_candidates(c):
-    nets, maps = c["nets"], c["maps"]
+    qs, nets, maps = c["qs"], c["nets"], c["maps"]
+    if len(qs) > 1:
+        h = len(qs) // 2
+        yield dict(c, qs=qs[:h])
+        yield dict(c, qs=qs[h:])
+        if len(qs) <= 8:
+            for i in range(len(qs)):
+                yield dict(c, qs=qs[:i] + qs[i + 1:])
     for i in range(len(nets)):
         yield dict(c, nets=nets[:i] + nets[i + 1:])
     for i in range(len(maps)):
         yield dict(c, maps=maps[:i] + maps[i + 1:])
+
+
+def differential(ctx):
+    """standard run, then statistics per (query, backend) instead of per group"""
+    import json
+    import os
+    import checklib
+    checklib.differential_step(ctx)
+    path = os.path.join(ctx.scratch, "cases.jsonl")
+    if not os.path.exists(path):
+        return
+    keys, dist, n = set(), {}, 0
+    for line in open(path):
+        line = line.strip()
+        if not line:
+            continue
+        c = json.loads(line)
+        for x in c["qs"]:
+            n += 1
+            cl = c["bk"] + ":" + x.get("class", "?")
+            dist[cl] = dist.get(cl, 0) + 1
+            k = _q_key(c, x)
+            if k is not None:
+                keys.add(k)
+    ctx.cov["groups_evaluated"] = ctx.cov.get("evaluations", 0)
+    ctx.cov["evaluations"] = n
+    ctx.cov["distinct_nontrivial"] = len(keys)
+    ctx.cov["distribution"] = dist
